@@ -4,6 +4,8 @@ package c02
 
 import (
 	"fmt"
+	"runtime"
+	"runtime/debug"
 	"strings"
 
 	sentinel "github.com/alibaba/sentinel-golang/api"
@@ -32,6 +34,10 @@ type Interp struct {
 }
 
 func New() vh.Interp {
+	// one P and no GC: sync.Pool hands the pooled EntryOptions / EntryContext straight back to the next entry,
+	// so state leaking from one entry into the next (e.g. a batch count that is not reset) shows deterministically
+	runtime.GOMAXPROCS(1)
+	debug.SetGCPercent(-1)
 	vh.Silence()
 	it := &Interp{clk: vh.NewClock(1_900_000_000_000)}
 	verifhook.Sched = func(point string) {
@@ -96,14 +102,24 @@ func parseRule(s string) *flow.Rule {
 	if !ok {
 		panic("bad threshold " + f[1])
 	}
+	resource := resName(f[0])
+	if f[0] == "_" { // invalid: empty Resource
+		resource = ""
+	}
 	r := &flow.Rule{
-		Resource:               resName(f[0]),
+		Resource:               resource,
 		TokenCalculateStrategy: flow.Direct,
 		ControlBehavior:        flow.Reject,
 		Threshold:              thr,
 		StatIntervalInMs:       uint32(vh.U(f[2])),
 	}
-	if f[3] != "-" {
+	switch f[3] {
+	case "-":
+	case "_": // invalid: associated with an empty RefResource
+		r.RelationStrategy = flow.AssociatedResource
+	case "?": // invalid: undefined RelationStrategy
+		r.RelationStrategy = flow.RelationStrategy(7)
+	default:
 		r.RelationStrategy = flow.AssociatedResource
 		r.RefResource = resName(f[3])
 	}
@@ -170,12 +186,29 @@ func (it *Interp) Step(t []string, op string) string {
 			return "err"
 		}
 		return fmt.Sprintf("ok %d", len(flow.GetRules()))
+	case "loadres":
+		n := int(vh.U(t[2]))
+		if len(t) != 3+n {
+			panic("bad loadres")
+		}
+		rules := make([]*flow.Rule, 0, n)
+		for _, s := range t[3:] {
+			rules = append(rules, parseRule(s))
+		}
+		it.rules = append(it.rules, rules...)
+		if _, err := flow.LoadRulesOfResource(resName(t[1]), rules); err != nil {
+			return "err"
+		}
+		return fmt.Sprintf("ok %d", len(flow.GetRules()))
 	case "entry":
 		tok := ""
 		if len(t) > 3 {
 			tok = t[3]
 		}
-		opts := append(typeOpts(tok, 1)[0], sentinel.WithBatchCount(uint32(vh.U(t[2]))))
+		opts := typeOpts(tok, 1)[0]
+		if t[2] != "-" { // `-`: a plain api.Entry(res) without WithBatchCount (batch 1 by default)
+			opts = append(opts, sentinel.WithBatchCount(uint32(vh.U(t[2]))))
+		}
 		t0 := it.clk.Ns
 		e, b := sentinel.Entry(resName(t[1]), opts...)
 		return it.withSleep(it.decision(e, b), t0)
@@ -205,7 +238,10 @@ func (it *Interp) par(res string, bs, sched []string, topts [][]sentinel.EntryOp
 	for i := range bs {
 		th := &thread{resume: make(chan struct{}), parked: make(chan struct{}), done: make(chan string)}
 		ths[i] = th
-		opts := append(topts[i], sentinel.WithBatchCount(uint32(vh.U(bs[i]))))
+		opts := topts[i]
+		if bs[i] != "-" {
+			opts = append(opts, sentinel.WithBatchCount(uint32(vh.U(bs[i]))))
+		}
 		go func() {
 			<-th.resume
 			e, b := sentinel.Entry(res, opts...)
